@@ -1,3 +1,569 @@
 package main
 
-func mainCheck(args []string) int { return 2 }
+// Check driver: property -> obligations (jobs) -> exploration -> native replay of counterexamples ->
+// known-findings policy -> evidence file -> exit code.
+
+import (
+	"crypto/sha1"
+	"encoding/json"
+	"fmt"
+	"os"
+	"os/exec"
+	"path/filepath"
+	"regexp"
+	"sort"
+	"strconv"
+	"strings"
+	"sync"
+	"sync/atomic"
+	"time"
+
+	"golang.org/x/tools/go/ssa"
+)
+
+type PropCheck struct {
+	ID          string
+	PkgDirs     []string
+	Level       string // evidence level: "other" or "model_checking"
+	Explanation string
+	Rule        string
+	Assumptions []string
+	Trusted     []string
+	Bounds      func(tier string) string
+	Jobs        func(tier string, prog *ssa.Program) []*Job
+	Extra       func(tier string, ld *Loaded, ev map[string]interface{}) []Finding // non-job obligations (C19 terms, C08 CFG)
+}
+
+type Finding struct {
+	Obligation string
+	Kind       string // assert, panic, blocked, alloc
+	Msg        string
+	Fn         string // function of the real code where it fired (panics/allocs)
+	Inputs     string // JSON inputs for the native harness
+	Entry      string // harness to replay (empty: not replayable natively)
+	PkgDir     string
+	Replay     func(dir string) (reproduced bool, detail string) // custom replay
+}
+
+func (f Finding) Signature() string {
+	s := f.Obligation + "|" + f.Kind + "|" + f.Msg
+	if f.Fn != "" {
+		s += "|" + f.Fn
+	}
+	return s
+}
+
+type KnownFinding struct {
+	Property   string `json:"property"`
+	Match      string `json:"match"`
+	Status     string `json:"status"` // known | fixed
+	Commit     string `json:"commit,omitempty"`
+	Text       string `json:"text"`
+}
+
+var registry = map[string]*PropCheck{}
+
+func register(p *PropCheck) { registry[p.ID] = p }
+
+func loadKnown() []KnownFinding {
+	b, err := os.ReadFile(filepath.Join(verifDir(), "known_findings.json"))
+	if err != nil {
+		return nil
+	}
+	var doc struct {
+		Findings []KnownFinding `json:"findings"`
+	}
+	if json.Unmarshal(b, &doc) != nil {
+		return nil
+	}
+	return doc.Findings
+}
+
+func mainCheck(args []string) int {
+	if len(args) >= 2 && args[0] == "replay" {
+		return replayDir(args[1])
+	}
+	if len(args) >= 1 && args[0] == "list" {
+		var ids []string
+		for id := range registry {
+			ids = append(ids, id)
+		}
+		sort.Strings(ids)
+		fmt.Println(strings.Join(ids, " "))
+		return 0
+	}
+	if len(args) < 2 || args[0] != "check" {
+		fmt.Fprintln(os.Stderr, "usage: symgo check <id> <quick|thorough> | replay <dir> | job <pkg> <entry>")
+		return 2
+	}
+	id := args[1]
+	tier := "quick"
+	if len(args) > 2 {
+		tier = args[2]
+	}
+	p := registry[id]
+	if p == nil {
+		fmt.Fprintf(os.Stderr, "no check registered for %s\n", id)
+		return 2
+	}
+	return runCheck(p, tier)
+}
+
+func runCheck(p *PropCheck, tier string) int {
+	t0 := time.Now()
+	seed, _ := strconv.Atoi(os.Getenv("VERIF_SEED"))
+	ld, err := loadRepo(p.PkgDirs)
+	if err != nil {
+		fmt.Fprintf(os.Stderr, "symgo: cannot load %v from %s: %v\n", p.PkgDirs, repoDir(), err)
+		fmt.Printf("INCONCLUSIVE property=%s cannot load the repository with the harness overlay: %v\n", p.ID, err)
+		writeEvidence(p, tier, seed, nil, nil, map[string]interface{}{"load_error": err.Error()}, time.Since(t0).Seconds(), 0)
+		// a tree that no longer compiles with the harness cannot be judged; do not alarm
+		return 0
+	}
+	extraEv := map[string]interface{}{"load_seconds": ld.LoadSec}
+	var jobs []*Job
+	if p.Jobs != nil {
+		jobs = p.Jobs(tier, ld.Prog)
+	}
+	// run jobs concurrently (bounded by the global solver semaphore)
+	var wg sync.WaitGroup
+	for _, j := range jobs {
+		wg.Add(1)
+		if tier == "thorough" {
+			j.Cross = true
+		}
+		go func(j *Job) {
+			defer wg.Done()
+			Explore(ld.Prog, j)
+		}(j)
+	}
+	wg.Wait()
+	var findings []Finding
+	for _, j := range jobs {
+		seen := map[string]int{}
+		for _, v := range j.res.Violations {
+			f := Finding{Obligation: j.ID, Kind: v.Kind, Msg: v.Msg, Inputs: v.Extra["inputs"], Entry: j.Entry, PkgDir: j.Pkg}
+			if v.Kind == "panic" || v.Kind == "blocked" {
+				f.Msg = stripSite(v.Msg)
+				f.Fn = v.Site
+			}
+			if seen[f.Signature()] >= 3 {
+				continue
+			}
+			seen[f.Signature()]++
+			findings = append(findings, f)
+		}
+	}
+	if p.Extra != nil {
+		findings = append(findings, p.Extra(tier, ld, extraEv)...)
+	}
+	// replay & classify
+	known := loadKnown()
+	type group struct {
+		sig        string
+		fs         []Finding
+		reproduced bool
+		detail     string
+		path       string
+	}
+	groups := map[string]*group{}
+	var order []string
+	for _, f := range findings {
+		s := f.Signature()
+		if groups[s] == nil {
+			groups[s] = &group{sig: s}
+			order = append(order, s)
+		}
+		groups[s].fs = append(groups[s].fs, f)
+	}
+	violations := 0
+	unconfirmed := 0
+	knownHit := 0
+	var lines []string
+	var replayMu sync.Mutex
+	var rwg sync.WaitGroup
+	rsem := make(chan struct{}, 6)
+	for _, s := range order {
+		g := groups[s]
+		rwg.Add(1)
+		go func(g *group) {
+			defer rwg.Done()
+			rsem <- struct{}{}
+			defer func() { <-rsem }()
+			for _, f := range g.fs {
+				ok, detail, path := replayFinding(p, f)
+				replayMu.Lock()
+				g.detail, g.path = detail, path
+				if ok {
+					g.reproduced = true
+				}
+				replayMu.Unlock()
+				if ok {
+					break
+				}
+			}
+		}(g)
+	}
+	rwg.Wait()
+	var sampleCex []interface{}
+	for _, s := range order {
+		g := groups[s]
+		if !g.reproduced {
+			unconfirmed++
+			lines = append(lines, fmt.Sprintf("UNCONFIRMED property=%s obligation=%s (%s) replay did not reproduce: %s", p.ID, g.fs[0].Obligation, g.sig, g.detail))
+			continue
+		}
+		isKnown := false
+		for _, k := range known {
+			if k.Property == p.ID && k.Status == "known" && strings.Contains(g.sig, k.Match) {
+				isKnown = true
+				lines = append(lines, fmt.Sprintf("KNOWN-FINDING: property=%s %s [%s]", p.ID, k.Text, g.sig))
+				knownHit++
+				break
+			}
+		}
+		if len(sampleCex) < 6 {
+			sampleCex = append(sampleCex, map[string]interface{}{"counterexample": g.sig, "inputs": json.RawMessage(orEmptyObj(g.fs[0].Inputs)), "replay": g.path, "reproduced": true, "known": isKnown})
+		}
+		if !isKnown {
+			violations++
+			lines = append(lines, fmt.Sprintf("VIOLATION property=%s replay=%s", p.ID, g.path))
+			lines = append(lines, fmt.Sprintf("  what: %s", g.sig))
+		}
+	}
+	// inconclusive reporting
+	inconc := 0
+	for _, j := range jobs {
+		for r, n := range j.res.Inconclusive {
+			inconc += n
+			lines = append(lines, fmt.Sprintf("INCONCLUSIVE property=%s obligation=%s x%d: %s", p.ID, j.ID, n, r))
+		}
+		for r, n := range j.res.UnknownAsserts {
+			inconc += n
+			lines = append(lines, fmt.Sprintf("INCONCLUSIVE property=%s obligation=%s x%d: solver unknown on %s", p.ID, j.ID, n, r))
+		}
+		for _, ci := range j.res.CrossIssues {
+			inconc++
+			lines = append(lines, fmt.Sprintf("INCONCLUSIVE property=%s solver disagreement: %s", p.ID, ci))
+		}
+		if j.res.Paths > 0 && j.res.Outcomes["assume-false"] == j.res.Paths {
+			inconc++
+			lines = append(lines, fmt.Sprintf("INCONCLUSIVE property=%s obligation=%s vacuous: every path ends in an infeasible assumption", p.ID, j.ID))
+		}
+	}
+	sort.Strings(lines)
+	for _, l := range lines {
+		fmt.Println(l)
+	}
+	extraEv["unconfirmed"] = unconfirmed
+	extraEv["known_findings_hit"] = knownHit
+	extraEv["inconclusive_items"] = inconc
+	if len(sampleCex) > 0 {
+		extraEv["counterexamples"] = sampleCex
+	}
+	wall := time.Since(t0).Seconds()
+	writeEvidence(p, tier, seed, jobs, findings, extraEv, wall, violations)
+	fmt.Printf("symgo: property=%s tier=%s obligations=%d violations=%d known=%d unconfirmed=%d inconclusive=%d wall=%.1fs\n",
+		p.ID, tier, len(jobs), violations, knownHit, unconfirmed, inconc, wall)
+	if violations > 0 {
+		return 1
+	}
+	return 0
+}
+
+func orEmptyObj(s string) string {
+	if s == "" {
+		return "{}"
+	}
+	return s
+}
+
+var siteRe = regexp.MustCompile(` @[^ ]+$`)
+
+func stripSite(s string) string { return siteRe.ReplaceAllString(s, "") }
+
+// ---------------------------------------------------------------------------------------
+// Native replay
+
+const replayTestSrc = `package PKG
+
+import (
+	"fmt"
+	"os"
+	"testing"
+)
+
+func TestVerifReplay(t *testing.T) {
+	name := os.Getenv("VERIF_ENTRY")
+	fn := vHarnesses[name]
+	if fn == nil {
+		fmt.Println("REPLAY-OUTCOME: NOENTRY " + name)
+		t.Fatalf("no harness %s", name)
+	}
+	os.Setenv("VERIF_TMP", t.TempDir())
+	out := VerifReplay(name, fn)
+	fmt.Println("REPLAY-OUTCOME: " + out)
+	if out != "OK" && out != "ASSUME-FAILED" {
+		t.Fatalf("%s", out)
+	}
+}
+`
+
+func replayFinding(p *PropCheck, f Finding) (bool, string, string) {
+	h := sha1.Sum([]byte(f.Signature() + f.Inputs))
+	dir := filepath.Join(verifDir(), "replays", p.ID, fmt.Sprintf("%x", h[:6]))
+	os.MkdirAll(dir, 0o755)
+	if f.Replay != nil {
+		ok, detail := f.Replay(dir)
+		return ok, detail, dir
+	}
+	if f.Entry == "" {
+		return false, "no native replay for this obligation", dir
+	}
+	os.WriteFile(filepath.Join(dir, "model.json"), []byte(orEmptyObj(f.Inputs)), 0o644)
+	// copy harness files and build the overlay
+	ov := harnessOverlay([]string{f.PkgDir})
+	repl := map[string]string{}
+	pkgName := ""
+	for virt, content := range ov {
+		local := filepath.Join(dir, filepath.Base(virt))
+		os.WriteFile(local, content, 0o644)
+		repl[virt] = local
+		if pkgName == "" {
+			for _, l := range strings.Split(string(content), "\n") {
+				if strings.HasPrefix(l, "package ") {
+					pkgName = strings.TrimSpace(strings.TrimPrefix(l, "package "))
+					break
+				}
+			}
+		}
+	}
+	testLocal := filepath.Join(dir, "zz_verif_replay_test.go")
+	os.WriteFile(testLocal, []byte(strings.Replace(replayTestSrc, "package PKG", "package "+pkgName, 1)), 0o644)
+	repl[filepath.Join(repoDir(), f.PkgDir, "zz_verif_replay_test.go")] = testLocal
+	ovj, _ := json.MarshalIndent(map[string]interface{}{"Replace": repl}, "", " ")
+	os.WriteFile(filepath.Join(dir, "overlay.json"), ovj, 0o644)
+	meta, _ := json.MarshalIndent(map[string]string{"property": p.ID, "signature": f.Signature(), "entry": f.Entry, "pkg": f.PkgDir, "repo": repoDir()}, "", " ")
+	os.WriteFile(filepath.Join(dir, "meta.json"), meta, 0o644)
+	run := fmt.Sprintf("#!/bin/sh\n# replays the counterexample against the real build; prints REPLAY-OUTCOME\ncd %s && env -u GOTOOLCHAIN GOFLAGS=-mod=mod GOPROXY=off VERIF_ENTRY=%s VERIF_MODEL=%s/model.json go test -vet=off -count=1 -timeout 120s -run '^TestVerifReplay$' -overlay %s/overlay.json ./%s/ 2>&1\n",
+		repoDir(), f.Entry, dir, dir, f.PkgDir)
+	os.WriteFile(filepath.Join(dir, "run.sh"), []byte(run), 0o755)
+	ok, detail := execReplay(dir)
+	return ok, detail, dir
+}
+
+var replayCount int64
+
+func execReplay(dir string) (bool, string) {
+	atomic.AddInt64(&replayCount, 1)
+	cmd := exec.Command("/bin/sh", filepath.Join(dir, "run.sh"))
+	cmd.Env = cleanGoEnv()
+	out, _ := cmd.CombinedOutput()
+	txt := string(out)
+	os.WriteFile(filepath.Join(dir, "last_output.txt"), out, 0o644)
+	for _, l := range strings.Split(txt, "\n") {
+		if i := strings.Index(l, "REPLAY-OUTCOME: "); i >= 0 {
+			o := l[i+len("REPLAY-OUTCOME: "):]
+			if strings.HasPrefix(o, "ASSERT-FAILED") || strings.HasPrefix(o, "PANIC") {
+				return true, o
+			}
+			return false, o
+		}
+	}
+	if strings.Contains(txt, "panic:") || strings.Contains(txt, "fatal error:") {
+		return true, "PANIC (process crashed)"
+	}
+	if strings.Contains(txt, "test timed out") {
+		return true, "HANG (test timed out)"
+	}
+	last := txt
+	if len(last) > 300 {
+		last = last[len(last)-300:]
+	}
+	return false, "no outcome line: " + strings.ReplaceAll(last, "\n", " / ")
+}
+
+// cleanGoEnv: replays build with the repository's own toolchain (default go, GOTOOLCHAIN auto)
+func cleanGoEnv() []string {
+	var env []string
+	for _, e := range os.Environ() {
+		if strings.HasPrefix(e, "GOTOOLCHAIN=") || strings.HasPrefix(e, "GOFLAGS=") || strings.HasPrefix(e, "PATH=") {
+			continue
+		}
+		env = append(env, e)
+	}
+	path := os.Getenv("PATH")
+	// drop the go1.26.8 bin dir that the wrapper put first
+	var parts []string
+	for _, d := range strings.Split(path, ":") {
+		if strings.Contains(d, "go1.26.8") {
+			continue
+		}
+		parts = append(parts, d)
+	}
+	env = append(env, "PATH="+strings.Join(parts, ":"))
+	return env
+}
+
+func replayDir(dir string) int {
+	ok, detail := execReplay(dir)
+	fmt.Println(detail)
+	if ok {
+		fmt.Println("reproduced")
+		return 1
+	}
+	return 0
+}
+
+// ---------------------------------------------------------------------------------------
+// Evidence
+
+func writeEvidence(p *PropCheck, tier string, seed int, jobs []*Job, findings []Finding, extra map[string]interface{}, wall float64, violations int) {
+	cov := map[string]interface{}{}
+	paths, queries, discharged, asserts, trivial := 0, 0, 0, 0, 0
+	var steps int64
+	var samples []interface{}
+	var obl []interface{}
+	outcomes := map[string]int{}
+	trunc := map[string]int{}
+	covers := 0
+	vacuous := 0
+	distinct := 0
+	for _, j := range jobs {
+		r := &j.res
+		paths += r.Paths
+		queries += r.Queries
+		discharged += r.Discharged
+		trivial += r.Trivial
+		steps += r.Steps
+		asserts += len(r.AssertSites)
+		distinct += len(r.AssertSites)
+		for k, v := range r.Outcomes {
+			outcomes[k] += v
+		}
+		for k, v := range r.Truncated {
+			trunc[k] += v
+		}
+		covers += len(r.Covers)
+		for _, s := range r.Samples {
+			if len(samples) < 10 {
+				samples = append(samples, s)
+			}
+		}
+		o := map[string]interface{}{"id": j.ID, "entry": j.Entry, "desc": j.Desc, "paths": r.Paths, "outcomes": r.Outcomes,
+			"assert_sites": len(r.AssertSites), "discharged_queries": r.Discharged, "folded_trivially": r.Trivial, "solver_queries": r.Queries,
+			"violating_models": len(r.Violations), "wall_s": round2(r.Wall), "max_formula_nodes": r.MaxTermSize}
+		if len(r.Inconclusive) > 0 {
+			o["inconclusive"] = r.Inconclusive
+		}
+		if len(r.Truncated) > 0 {
+			o["outside_bound"] = r.Truncated
+		}
+		if len(r.Covers) > 0 {
+			var cs []string
+			for c := range r.Covers {
+				cs = append(cs, c)
+			}
+			sort.Strings(cs)
+			o["reachability_witnesses"] = cs
+		}
+		if r.Paths > 0 && r.Outcomes["assume-false"] == r.Paths {
+			vacuous++
+		}
+		if len(r.Notes) > 0 {
+			o["notes"] = r.Notes
+		}
+		obl = append(obl, o)
+	}
+	if len(samples) == 0 {
+		samples = append(samples, fmt.Sprintf("%s: %d obligations, %d paths", p.ID, len(jobs), paths))
+	}
+	cov["evaluations"] = int(atomic.LoadInt64(&gStats.Queries))
+	cov["distinct_nontrivial"] = distinct
+	cov["rule"] = "evaluations = SMT queries issued by this run (feasibility + deciding); distinct_nontrivial = distinct assertion sites (harness obligation x source line) reached on some feasible path whose deciding query went to the solver or folded; " + p.Rule
+	cov["samples"] = samples
+	cov["explanation"] = p.Explanation
+	cov["obligations"] = len(jobs) + intOr(extra["extra_obligations"])
+	okObl := 0
+	for _, j := range jobs {
+		if len(j.res.Violations) == 0 && len(j.res.Inconclusive) == 0 && len(j.res.UnknownAsserts) == 0 {
+			okObl++
+		}
+	}
+	cov["discharged"] = okObl + intOr(extra["extra_discharged"])
+	cov["checker_cmd"] = fmt.Sprintf("./check %s %s", p.ID, tier)
+	cov["trusted_base"] = append([]string{"go/ssa translation (x/tools v0.50.0)", "symgo interpreter and stdlib models (DESIGN §2.3, §8)", "z3 5.1.0 (primary); z3 4.8.12 and cvc5 1.0.3 as cross-checks in the thorough tier"}, p.Trusted...)
+	cov["paths_explored"] = paths
+	cov["ssa_instructions_executed"] = steps
+	cov["path_outcomes"] = outcomes
+	cov["outside_bound_paths"] = trunc
+	cov["assert_sites"] = asserts
+	cov["deciding_queries_unsat"] = discharged
+	cov["asserts_folded_by_simplifier"] = trivial
+	cov["reachability_witnesses"] = covers
+	cov["vacuous_obligations"] = vacuous
+	cov["obligation_details"] = obl
+	cov["native_replays_run"] = int(atomic.LoadInt64(&replayCount))
+	cov["solver"] = map[string]interface{}{
+		"queries": gStats.Queries, "sat": gStats.Sat, "unsat": gStats.Unsat, "unknown": gStats.Unknown, "errors": gStats.Errors,
+		"primary_seconds": round2(float64(gStats.Nanos) / 1e9),
+		"cross_checked": gStats.CrossChecked, "cross_agree": gStats.CrossAgree, "cross_timeout": gStats.CrossTimeout, "cross_disagree": gStats.CrossDisagree,
+	}
+	if p.Bounds != nil {
+		cov["bounds"] = p.Bounds(tier)
+	}
+	if p.Level == "model_checking" {
+		st := paths
+		if st < 1 {
+			st = 1
+		}
+		tr := int(steps)
+		if tr < 1 {
+			tr = 1
+		}
+		cov["states"] = st
+		cov["transitions"] = intOr(extra["transitions"])
+		if cov["transitions"].(int) < 1 {
+			cov["transitions"] = queries + 1
+		}
+		cov["traces_validated_against_impl"] = int(atomic.LoadInt64(&replayCount)) + intOr(extra["traces_validated"])
+	}
+	for k, v := range extra {
+		cov[k] = v
+	}
+	funcs := map[string]bool{}
+	for _, j := range jobs {
+		for f := range j.res.Funcs {
+			funcs[f] = true
+		}
+	}
+	if len(funcs) > 0 {
+		var fl []string
+		for f := range funcs {
+			fl = append(fl, f)
+		}
+		sort.Strings(fl)
+		cov["functions_encoded"] = fl
+	}
+	ev := map[string]interface{}{
+		"property_id": p.ID, "tier": tier, "seed": seed, "level": p.Level, "coverage": cov,
+		"assumptions": p.Assumptions, "wall_s": round2(wall), "violations": violations,
+	}
+	b, _ := json.MarshalIndent(ev, "", " ")
+	os.MkdirAll(filepath.Join(verifDir(), "evidence"), 0o755)
+	os.WriteFile(filepath.Join(verifDir(), "evidence", p.ID+".json"), b, 0o644)
+}
+
+func intOr(v interface{}) int {
+	switch x := v.(type) {
+	case int:
+		return x
+	case int64:
+		return int(x)
+	case float64:
+		return int(x)
+	}
+	return 0
+}
+
+func round2(f float64) float64 { return float64(int(f*100)) / 100 }
